@@ -38,7 +38,9 @@ int main(int argc,char** argv){
     if(tk[0]=="T"){ nd=atoi(tk[1].c_str()); pad=dfrom(parse_hex(tk[2])); ord.clear(); kn.clear(); tab.reset(); }
     else if(tk[0]=="D"){ ord.push_back(atoi(tk[1].c_str())); std::vector<double> k; for(size_t i=3;i<tk.size();i++) k.push_back(dfrom(parse_hex(tk[i]))); kn.push_back(k); }
     else if(tk[0]=="C"){ std::vector<float> co; for(size_t i=2;i<tk.size();i++) co.push_back(ffrom((uint32_t)parse_hex(tk[i])));
-      tab.reset(new ST()); build_table(*tab,ord,kn,co,pad); }
+      // extents / periods (state grid evaluation must not read) vary from table to table
+      uint64_t h=0x9e3779b97f4a7c15ull; for(auto& k: kn) for(double v: k){ uint64_t b; memcpy(&b,&v,8); h=(h^b)*0x100000001b3ull; }
+      tab.reset(new ST()); build_table(*tab,ord,kn,co,pad,(int)((h>>33)%7)); }
     else if(tk[0]=="G"){
       if(gn++ < skip) continue;
       const std::string id=tk[1];
